@@ -12,7 +12,7 @@ static double relF(const BigL& A, const BigL& B) { return (double)((A - B).norm(
 void runOnce(const Args&) {}
 
 struct Ctx {
-  const Args& a; long long i; std::string cellkey, vkey; bool nontriv; double tol;
+  const Args& a; long long i; std::string cellkey, vkey; bool nontriv; double tol; double cond_allow = 0;
   std::string ops;
   J base;
   Ctx(const Args& a_, long long i_) : a(a_), i(i_), nontriv(true), tol(1e-6) {}
@@ -23,6 +23,7 @@ struct Ctx {
     BigL Jr_ = oracle(h);
     double e = Jm.allFinite() ? relF(Jm, Jr_) : INFINITY;
     if (LOG.verbose) { std::cerr << "---- " << op << " err=" << e << "\nmanif J=\n" << Jm.cast<double>() << "\nmodel J=\n" << Jr_.cast<double>() << "\ndiff=\n" << (Jm - Jr_).cast<double>() << "\n"; }
+    const double tol = this->tol + cond_allow;
     if (!(e <= tol) && Jm.allFinite()) {
       BigL J2 = oracle(h / 2), J3 = oracle(2 * h);
       double self = std::max(relF(J2, Jr_), relF(J3, Jr_));
@@ -71,6 +72,11 @@ void runCase(long long i, Prng& r, const Args& a) {
   const int n = g.dof;
   Ctx c(a, i);
   c.tol = dbl ? 1e-6 : 1e-2;
+  // Jacobians of log-type operations (log, rminus, lminus) contain the inverse Jacobian Jr^-1 of the resulting tangent.  Where that matrix is
+  // ill conditioned (SGal3 with |time*velocity| ~ 1e6: cond 1e11 and more) no evaluation through Jr^-1 in working precision can reach 1e-6:
+  // the tolerance gets the allowance min(0.1*u*cond(Jr), 10*tol) -- below 1e-8 for cond < 1e9, i.e. irrelevant for all but a few samples per million
+  // (measured: 1.47e-6 at cond 3.6e11, and manif instantiated for long double agrees with the oracle to 1e-9 on that sample)
+  auto condAllow = [&](const VecL& tres) { ref::BigL Jt = ref::gJr(g, tres); double cnd = (double)(Jt.norm() * ref::bigInverse(Jt).norm()); LOG.maxi("cond-Jr/" + GN(), cnd); return std::min(0.1 * Sc<MonS>::u() * cnd, 10 * c.tol); };   // capped at 10x the nominal tolerance: closed-form inverses do not need it, and no defect larger than that hides behind it
   c.base.vec("X", X.coeffs()).vec("Y", Y.coeffs()).vec("t", tv).vec("p", pv);
 
   // distance to the cut locus decides the finite-difference step
@@ -103,7 +109,9 @@ void runCase(long long i, Prng& r, const Args& a) {
     X.log(Ja);
     VecL F0 = ref::glog(g, MX);
     const LD h_Jr_ = stepFor(thX); auto o_Jr_ = [&](LD hh) { return ref::fdJac(n, n, hh, [&](const VecL& d) { VecL v = ref::glog(g, ref::gplus(g, MX, d)) - F0; return v; }); };
+    c.cond_allow = condAllow(F0);
     c.rec("log", toLM(Ja), h_Jr_, o_Jr_);
+    c.cond_allow = 0;
   }
   if (sel[2]) {  // exp
     c.cellkey = gx + lt; c.vkey = gx + dropLin(lt);
@@ -162,7 +170,9 @@ void runCase(long long i, Prng& r, const Args& a) {
     const GM C = ref::gmul(ref::ginv(g, MY), MX);
     const LD h_J1 = stepFor(thRel); auto o_J1 = [&](LD hh) { return ref::fdJac(n, n, hh, [&](const VecL& d) { VecL v = ref::glog(g, ref::gmul(C, ref::gexp(g, d))) - relXY; return v; }); };
     const LD h_J2 = stepFor(thRel); auto o_J2 = [&](LD hh) { return ref::fdJac(n, n, hh, [&](const VecL& d) { VecL md = -d; VecL v = ref::glog(g, ref::gmul(ref::gexp(g, md), C)) - relXY; return v; }); };
+    c.cond_allow = condAllow(relXY);
     c.rec("rminus-J_a" + sfx, toLM(Ja), h_J1, o_J1); c.rec("rminus-J_b" + sfx, toLM(Jb), h_J2, o_J2);
+    c.cond_allow = 0;
     MJ Pa, Pb; X.minus(Y, Pa, Pb);
     if (!(Pa == Ja) || !(Pb == Jb)) LOG.viol("minus-alias-jacobians/" + c.vkey, 1, caseJ(a, i).raw("inputs", c.base.str()).str());
   }
@@ -176,7 +186,9 @@ void runCase(long long i, Prng& r, const Args& a) {
     auto pert = [&](const VecL& d, LD sgn) { Eigen::Matrix<LD, -1, 1> dd = d; Eigen::Matrix<LD, -1, 1> w = sgn * (AdY * dd); VecL v = w; return v; };
     const LD h_J1 = stepFor(thRelL); auto o_J1 = [&](LD hh) { return ref::fdJac(n, n, hh, [&](const VecL& d) { VecL v = ref::glog(g, ref::gmul(D, ref::gexp(g, pert(d, 1)))) - relL; return v; }); };
     const LD h_J2 = stepFor(thRelL); auto o_J2 = [&](LD hh) { return ref::fdJac(n, n, hh, [&](const VecL& d) { VecL v = ref::glog(g, ref::gmul(D, ref::gexp(g, pert(d, -1)))) - relL; return v; }); };
+    c.cond_allow = condAllow(relL);
     c.rec("lminus-J_a" + sfx, toLM(Ja), h_J1, o_J1); c.rec("lminus-J_b" + sfx, toLM(Jb), h_J2, o_J2);
+    c.cond_allow = 0;
   }
   if (sel[9]) {  // act
     c.cellkey = gx + lx; c.vkey = gx + dropLin(lx);
